@@ -22,6 +22,7 @@ def unsupKinds (p : Prog) : List String :=
     | .dw s _ => if t.getD s false then some "dw" else none
     | .fixedDw s _ => if t.getD s false then some "dw" else none
     | .reuse s _ ls _ _ => if t.getD s false || t.getD ls false then some "reuse" else none
+    | .reuseDw s _ ls _ => if t.getD s false || t.getD ls false then some "reuse" else none
     | _ => none
   ks.eraseDups
 
